@@ -32,7 +32,7 @@ theorem breakOn_some_eq (d : Bytes) : ∀ (xs a r : Bytes), breakOn d xs = some 
       | none => simp [hb] at h
       | some p =>
         obtain ⟨a', r'⟩ := p
-        simp only [hb, Option.some.injEq, Prod.mk.injEq] at h
+        simp only [hb] at h
         obtain ⟨rfl, rfl⟩ := h
         have := ih a' r hb
         rw [this]; simp
@@ -69,9 +69,8 @@ theorem breakOn_append (d : Bytes) : ∀ (xs a r ys : Bytes), breakOn d xs = som
       | none => simp [hb] at h
       | some p =>
         obtain ⟨a', r'⟩ := p
-        simp only [hb, Option.some.injEq, Prod.mk.injEq] at h
+        simp only [hb] at h
         obtain ⟨rfl, rfl⟩ := h
-        have hlen : (x :: xs).length < d.length + 0 ∨ True := Or.inr trivial
         have hp' : ¬ d.isPrefixOf (x :: xs ++ ys) = true := by
           intro hc
           -- d is a prefix of (x::xs)++ys, and breakOn found d inside xs: so |d| ≤ |xs| < |x::xs|
@@ -84,7 +83,7 @@ theorem breakOn_append (d : Bytes) : ∀ (xs a r ys : Bytes), breakOn d xs = som
         have : breakOn d (x :: xs ++ ys) = (match breakOn d (xs ++ ys) with
             | some (a, r) => some (x :: a, r) | none => none) := by
           conv => lhs; unfold breakOn
-          simp only [hp', if_false]
+          simp only [hp']
           rfl
         rw [this, ih a' r ys hb]
 
